@@ -38,6 +38,13 @@ def make(kind):
         c.register_unstructure_hook(T.Position, lambda p: f"{p.line}:{p.character}")
         c.register_structure_hook(T.Position, lambda v, _: T.Position(line=int(str(v).split(":")[0]), character=int(str(v).split(":")[1])) if isinstance(v, str) else T.Position(**v))
         return c
+    if kind == "copy":
+        # a copy of a converter that get_converter() handed out (cattrs.Converter.copy): must parse and serialise like the original
+        return converters.get_converter().copy()
+    if kind == "prefer":
+        return converters.get_converter(cattrs.Converter(prefer_attrib_converters=True))
+    if kind == "omitdefault":
+        return converters.get_converter(cattrs.Converter(omit_if_default=True))
     if kind == "lenient":
         # a user converter that is deliberately lenient about a few enumerations (its own business): nobody else's converter may inherit that
         import lsprotocol.types as T
